@@ -177,6 +177,21 @@ def run_chain(states, recursive, plans, st_=None):
             pass
         return {"nontrivial": False, "classes": ["baseline-root-gone"]}
     em.on_thread_start()
+
+    def snapshot_check(i, entries):
+        # the snapshot the emitter keeps (looked at if it is where it used to be): exactly the effective tree, with
+        # the stat data the stat function returned
+        snap = getattr(em, "_snapshot", None)
+        if snap is not None and hasattr(snap, "stat_info"):
+            hook, v.hook = v.hook, None
+            try:
+                msg = vfs.snapshot_content_error(snap, entries)
+            finally:
+                v.hook = hook
+            if msg:
+                raise Violation(f"poll {i}: {msg}", "snapshot-content")
+
+    snapshot_check(0, base)
     prev = base
     nontrivial = False
     classes = set()
@@ -239,6 +254,7 @@ def run_chain(states, recursive, plans, st_=None):
             classes.add("multi-class-diff")
         if not got:
             classes.add("empty-poll")
+        snapshot_check(i, new)
         prev = new
         # the tree left behind by mutations is what later states are compared with only through their own snapshot
     return {"nontrivial": nontrivial, "classes": sorted(classes)}
